@@ -11,8 +11,9 @@
        (KillDefs.v), INCLUDING the handshake: waiteof polls the pipe hpolls = 1000
        times; if the child has not closed its end by then the runner takes the
        "process group failure" path (waitpid(pid), return error ? error : 1, no
-       alarm).  The order of its calls, its constants and its status mapping are
-       compared with the current source on every run (C07_model_matches_source),
+       alarm).  Its step function is proved to be the interpretation of the transition
+       table the translator derives from the current source on every run
+       (C07_model_matches_source),
        the status mapping is the clang-translated one of C06 (C07_exit_mapping); and
      * a KERNEL MODEL THAT IS AN ASSUMPTION, NOT A VERIFIED FACT: the step's group
        is a finite set of processes; kill(-pgid, s) reaches every live member;
@@ -21,7 +22,13 @@
        waitpid and otherwise only sets gotsig; unhandled SIGTERM ends the runner;
        SIGALRM arrives only after alarm() was called; members cannot exit before the
        child is up.  Delivery latency, PID reuse, members leaving the group or
-       forking during the kill, uninterruptible members are not modelled; the
+       forking during the kill, uninterruptible members are not modelled; NOT MODELLED
+       either: any signal to the runner other than SIGTERM and SIGALRM ([arrive] answers
+       None) - SIGINT, SIGHUP, SIGQUIT keep their default action in the parent (only the
+       child resets them), so each of them kills the runner at EVERY program counter and
+       leaves the group running, like window 1; SIGKILL/SIGSTOP of the runner; a stopped
+       (SIGSTOP/SIGTSTP) step, which the runner waits for without limit unless the timeout
+       fires; the property's quantifier names SIGTERM and the timeout only.  The
        process tree is used only as the list of its members (dispositions, who can
        exit on its own): parent/child structure has no semantics in the model.
    Quantifiers: every process tree, every timeout configuration, every schedule.
@@ -32,9 +39,9 @@
    visible from outside.  The claim is PARTIAL (manifest): theorems about this model;
    the model is tied to the binary by the driven correspondence runs of harness/c07.py. *)
 From Robsd Require Import Exec.KillSpec Exec.KillProofs Exec.KillTerm Exec.KillWindows
-  Exec.KillAlarm Exec.KillWitness.
+  Exec.KillAlarm Exec.KillWitness Exec.KillLiteral Exec.KillTable Exec.KillTie.
 From Robsd Require Exec.KillExit Exec.ArgvDefs Exec.ArgvSpec.
-From RobsdGen Require Gen_Kill Gen_Exec.
+From RobsdGen Require Gen_Kill Gen_KillTable Gen_Exec.
 Local Open Scope Z_scope.
 
 (* THE MAIN THEOREM.  For every tree, every schedule [tr1] that brings the runner into
@@ -281,6 +288,99 @@ Theorem C07_status_zero_is_reachable :
 Proof. exact status_zero_after_term. Qed.
 Print Assumptions C07_status_zero_is_reachable.
 
+(* ---- THE LETTER OF THE PROPERTY where [spec] is more lenient (Exec/KillLiteral.v).  [spec] is the reading the
+   theorems above are exact about; on three clauses it concedes what the code does.  For each: the literal reading
+   as a named proposition, its refutation by an execution of the faithful model (replayed on the real robsd-exec,
+   corpus/C07/20..24; harness/c07.py judges every accepted run against the literal readings too and reports them
+   under signatures of their own), and what holds instead. *)
+
+(* (a) "No process of the step that keeps the default signal disposition outlives the step runner" - read
+   unconditionally it is FALSE: without any event the main process ends by itself, the runner exits with its status
+   and the other members of the group live on (the runner signals the group only after an event). *)
+Theorem C07_survivors_literal_refuted :
+  ~ survivors_literal /\
+  exists s', exec normal_end_schedule (init_tree two_procs_main_exits 0) = Some s' /\
+    no_arrival normal_end_schedule = true /\ terminated (s_pc s') = true /\
+    observe s' = mkobs (RExit 0) MReaped [false; true] [] /\
+    history_of s' = mkhist None None [true; false] false /\
+    spec (flatten two_procs_main_exits) (history_of s') (observe s') /\
+    ~ no_default_survivor (flatten two_procs_main_exits) (observe s').
+Proof. exact (conj survivors_literal_refuted normal_end_witness). Qed.
+Print Assumptions C07_survivors_literal_refuted.
+
+(* ... it holds after an event that found the runner blocked in waitpid(-pid) *)
+Theorem C07_survivors_partial : forall t timeout tr s',
+  exec tr (init_tree t timeout) = Some s' -> rstep s' = None -> hits_wait tr (init_tree t timeout) = true ->
+  terminated (s_pc s') = true /\ no_default_survivor (flatten t) (observe s').
+Proof. exact survivors_partial. Qed.
+Print Assumptions C07_survivors_partial.
+
+(* (b) "... and only then exits, with a non-zero status" - FALSE: the runner reports 0 when the main process
+   exited 0 by itself, although the request was noticed and the group was signalled; also FALSE when narrowed to
+   "unless the main process had exited 0 BEFORE the event": it may exit between the event and the kill. *)
+Theorem C07_status_nonzero_literal_refuted :
+  ~ status_nonzero_literal /\ ~ status_nonzero_narrow /\
+  (exists s', exec zero_after_event_schedule (init_tree two_procs_main_exits 0) = Some s' /\
+     hits_wait zero_after_event_schedule (init_tree two_procs_main_exits 0) = true /\
+     main_exit_first zero_after_event_schedule = false /\ s_event s' = Some SIGTERM /\
+     observe s' = mkobs (RExit 0) MReaped [false; false] [SIGTERM]) /\
+  (exists s', exec zero_before_event_schedule (init_tree two_procs_main_exits 0) = Some s' /\
+     hits_wait zero_before_event_schedule (init_tree two_procs_main_exits 0) = true /\
+     main_exit_first zero_before_event_schedule = true /\ s_event s' = Some SIGTERM /\
+     observe s' = mkobs (RExit 0) MReaped [false; false] [SIGTERM]).
+Proof.
+  exact (conj status_nonzero_literal_refuted (conj status_nonzero_narrow_refuted
+          (conj zero_after_event_witness zero_before_event_witness))).
+Qed.
+Print Assumptions C07_status_nonzero_literal_refuted.
+
+(* ... what holds: status 0 only for a main process that exited by itself with a code that is 0 modulo 256 *)
+Theorem C07_status_nonzero_partial : forall t timeout tr s' c,
+  exec tr (init_tree t timeout) = Some s' -> rstep s' = None -> hits_wait tr (init_tree t timeout) = true ->
+  o_result (observe s') = RExit c -> c = 0 -> main_exited_zero (flatten t) (history_of s').
+Proof. exact status_nonzero_partial. Qed.
+Print Assumptions C07_status_nonzero_partial.
+
+(* (c) "... that is 124 for a timeout" - FALSE in both directions: the status follows the LAST signal that reached
+   the runner, not the event that made it take the group down ([first_hit]).  Timeout, then SIGTERM during the
+   kill phase: 143; SIGTERM, then the alarm: 124. *)
+Theorem C07_timeout_status_literal_refuted :
+  ~ timeout_status_literal /\ ~ termination_status_literal /\
+  (exists s', exec timeout_then_term_schedule (init_tree two_procs 1) = Some s' /\ rstep s' = None /\
+     first_hit timeout_then_term_schedule (init_tree two_procs 1) = Some SIGALRM /\
+     observe s' = mkobs (RExit 143) MReaped [false; false] [SIGTERM] /\
+     spec (flatten two_procs) (history_of s') (observe s')) /\
+  (exists s', exec term_then_timeout_schedule (init_tree two_procs 1) = Some s' /\ rstep s' = None /\
+     first_hit term_then_timeout_schedule (init_tree two_procs 1) = Some SIGTERM /\
+     observe s' = mkobs (RExit 124) MReaped [false; false] [SIGTERM] /\
+     spec (flatten two_procs) (history_of s') (observe s')).
+Proof.
+  exact (conj (proj1 timeout_status_literal_refuted) (conj (proj2 timeout_status_literal_refuted)
+          (conj timeout_then_term_witness term_then_timeout_witness))).
+Qed.
+Print Assumptions C07_timeout_status_literal_refuted.
+
+(* ... what holds: 124 whenever the last signal that reached the runner was the alarm *)
+Theorem C07_timeout_status_partial : forall t timeout tr s' c,
+  exec tr (init_tree t timeout) = Some s' -> rstep s' = None -> hits_wait tr (init_tree t timeout) = true ->
+  o_result (observe s') = RExit c -> final_sig (history_of s') = Some SIGALRM -> c = 124.
+Proof. exact timeout_status_partial. Qed.
+Print Assumptions C07_timeout_status_partial.
+
+(* REPEATED TERMINATION REQUESTS.  robsd-kill resends SIGTERM every 100 ms until the runner is gone.  A request
+   lost in window 2 is made good by the next one that finds the runner in waitpid(-pid) (C07_event_takes_group_down
+   has no premise on earlier events); windows 1 and 3 are final: the runner is gone, nothing reaches it any more.
+   (harness/c07.py delivers SIGTERM two and three times: corpus/C07/25, 26.) *)
+Theorem C07_resent_sigterm :
+  (forall t timeout tr1 s0 sig0 s0' tr2 s s1 tr3 s',
+     exec tr1 (init_tree t timeout) = Some s0 -> handled_not_waiting (s_pc s0) = true ->
+     arrive sig0 s0 = Some s0' -> exec tr2 s0' = Some s -> s_pc s = PWaiting ->
+     arrive SIGTERM s = Some s1 -> exec tr3 s1 = Some s' -> rstep s' = None ->
+     cut_ok (flatten t) (history_of s') (observe s')) /\
+  (forall s sig, terminated (s_pc s) = true -> arrive sig s = None).
+Proof. exact (conj resend_heals_window2 runner_gone_nothing_arrives). Qed.
+Print Assumptions C07_resent_sigterm.
+
 (* the oracle the harness applies to what the real robsd-exec did is the specification ... *)
 Theorem C07_oracle_reflects_spec : forall ms h o, spec_okb ms h o = true <-> spec ms h o.
 Proof. exact spec_okb_iff. Qed.
@@ -313,24 +413,29 @@ Theorem C07_exit_mapping :
 Proof. exact KillExit.kill_exit_mapping. Qed.
 Print Assumptions C07_exit_mapping.
 
-(* the model transcribes step-exec.c as it is now: call order per function (handler
-   installation after the fork, setsid in the child, the handshake and its failure path,
-   kill(-pgid), waitpid flags, SIGKILL escalation, *status = 1, the status mapping) and the
-   constants *)
+(* THE TIE TO THE SOURCE.  harness/t_kill.py reads step_fork, waiteof, step_exec, killwaitpg and killwaitpg1
+   statement by statement on every run and emits the runner's control flow between the sync points as a table of
+   edges (Gen_KillTable.table; language and interpreter [tstep] in Exec/KillTable.v): the target of kill() (with or
+   without the minus sign), the signals of the two rounds in their order, the constants stored and returned, the
+   second argument of exitstatus(), which return value of waiteof / killwaitpg1 means failure, the direction of the
+   timeout test, the loop bounds.  The model's step function IS the interpretation of that table, for every state;
+   hence every execution the theorems above quantify over is an execution of the table's interpreter.  SIGTERM has
+   its default action exactly at the locations the translator found before siginstall(SIGTERM, sighandler,
+   SIG_NO_RESTART).  Pinned as TEXT only (string lists compared by reflexivity): exitstatus (also proved equal to
+   C06's clang-translated function, C07_exit_mapping), siginstall, sighandler (the translator also insists on the
+   whole body being `gotsig = signo;`), step_timeout; and the constants. *)
 Theorem C07_model_matches_source :
-  (Gen_Kill.calls_step_exec = model_calls_step_exec /\
-   Gen_Kill.calls_exitstatus = model_calls_exitstatus /\
-   Gen_Kill.calls_waiteof = model_calls_waiteof /\
-   Gen_Kill.calls_killwaitpg = model_calls_killwaitpg /\
-   Gen_Kill.calls_killwaitpg1 = model_calls_killwaitpg1 /\
+  (forall s, rstep s = tstep Gen_KillTable.table s) /\
+  (forall tr s, exec tr s = texec tr s) /\
+  (forall p, term_handled p = negb (existsb (loc_eqb (loc_of p)) Gen_KillTable.sigterm_unhandled)) /\
+  (Gen_Kill.calls_exitstatus = model_calls_exitstatus /\
    Gen_Kill.calls_siginstall = model_calls_siginstall /\
    Gen_Kill.calls_sighandler = model_calls_sighandler /\
-   Gen_Kill.calls_step_fork = model_calls_step_fork /\
    Gen_Kill.calls_step_timeout = model_calls_step_timeout) /\
   (Gen_Kill.ex_timeout = 124 /\ Gen_Kill.kill_timeout_ms = 5000 /\ Gen_Kill.kill_poll_ms = 100 /\
    npolls = 50%nat /\
    Gen_Kill.pipe_timeout_ms = 1000 /\ Gen_Kill.pipe_poll_ms = 1 /\ hpolls = 1000%nat).
-Proof. exact (conj tie_calls tie_constants). Qed.
+Proof. exact (conj rstep_is_table (conj exec_is_table_exec (conj term_handled_is_source (conj tie_calls tie_constants)))). Qed.
 Print Assumptions C07_model_matches_source.
 
 (* non-vacuity: a main process that ignores SIGTERM with a default child (which has an ignoring
